@@ -11,7 +11,7 @@ PID = "C19"
 
 
 def render_seg(seg: dict) -> str:
-    return seg["stem"] + ("" if seg["num"] < 0 else str(seg["num"])) + "".join("." + e for e in seg["exts"])
+    return seg["stem"] + ("" if seg["num"] < 0 else "0" * seg.get("pad", 0) + str(seg["num"])) + "".join("." + e for e in seg["exts"])
 
 
 class Codec:
